@@ -1,6 +1,7 @@
 import Peppi.JsonText
 import Peppi.Tar
 import Peppi.TarCut
+import Peppi.PeppiJson
 import Peppi.ReadStream
 import Peppi.Write
 import Peppi.Utf8
@@ -187,6 +188,22 @@ partial def loop (h : IO.FS.Stream) : IO Unit := do
        | .ok back => IO.println s!"ok {kvsDump m} rest={rest.length} back={hexOf back}"
        | .err e => IO.println s!"err {e}"
        | .panic p => IO.println s!"panic {p}")
+    | .err e => IO.println s!"err {e}"
+    | .panic p => IO.println s!"panic {p}"
+  | ["peppiw", a, b, c, hhex, q] =>
+    -- the JSON text of peppi.json (model of serde_json::to_vec(&Peppi {..})) for a version triple, an optional hash string
+    -- (UTF-8 bytes in hex, "-" for None) and optional quirks ("-", "0", "1")
+    let h : Option String := if hhex == "-" then none else String.fromUTF8? (ByteArray.mk (parseHex (hhex.drop 1).toString).toArray)
+    let qq : Option Bool := if q == "-" then none else some (q == "1")
+    if hhex != "-" && h.isNone then IO.println "bad-op" else
+    IO.println s!"ok {hexOf (encPeppiV a.toNat! b.toNat! c.toNat! h qq)}"
+  | ["peppir", hex] =>
+    -- the reader side on a real peppi.json text: version verdict, hash, quirks
+    match decPeppiJ (parseHex hex) with
+    | .ok p =>
+      let hs := match p.hash with | some s => hexOf s.toByteArray.data.toList | none => "-"
+      let qs := match p.quirks with | some true => "1" | some false => "0" | none => "-"
+      IO.println s!"ok vok={p.versionOk} hash={hs} quirks={qs}"
     | .err e => IO.println s!"err {e}"
     | .panic p => IO.println s!"panic {p}"
   | ["jsonw", hex] =>
